@@ -17,9 +17,17 @@ func readPrefixedString(buf []byte, r io.Reader) (string, error) {
 		return "", err
 	}
 	strlen := binary.LittleEndian.Uint32(buf[:4])
-	s := make([]byte, strlen)
-	if _, err := io.ReadFull(r, s); err != nil {
+	// read at most strlen bytes without trusting strlen for the allocation: the buffer grows
+	// with the data actually present
+	s, err := io.ReadAll(io.LimitReader(r, int64(strlen)))
+	if err != nil {
 		return "", err
+	}
+	if uint32(len(s)) < strlen {
+		if len(s) == 0 {
+			return "", io.EOF
+		}
+		return "", io.ErrUnexpectedEOF
 	}
 	return string(s), nil
 }
